@@ -1,5 +1,6 @@
 import Hive.Props.C07
 import Hive.Proofs.SeqConcLift
+import Hive.Proofs.SeqConcAnswers
 import Hive.Gen.C07_Skel
 /-!
 # C07 — concurrent callers on one `Sequence` object (protocol level)
@@ -65,6 +66,14 @@ theorem C07_concurrent_refines_sequential (s0 : St) (specs : List Spec) {c : Cfg
     rw [h1] at h2
     have := List.append_cancel_right h2
     exact (List.reverse_inj.mp this).symm
+
+/-- Every answer any goroutine has ever received from `Next` / `Release` (`got`) is the answer recorded
+for a linearised call of that goroutine — by `C07_concurrent_refines_sequential` the answer of the
+sequential machine at that call's linearisation point. -/
+theorem C07_concurrent_answers_are_sequential (s0 : St) (specs : List Spec) {c : Cfg Shared Thread}
+    (hr : Reach sys (initSh s0, specs.map spawn) c) :
+    ∀ g, .gor g ∈ c.2 → ∀ a ∈ g.got, ∃ op, (some g.id, op, a) ∈ c.1.hist :=
+  answers_reach s0 specs hr
 
 /-- **C07 for concurrent callers, main statement.**  Over every schedule of any number of goroutines
 calling `Next` and `Release` on one object, with store errors, crashes at any micro-step and
